@@ -4,7 +4,7 @@ from __future__ import annotations
 
 from .. import smallworld, gen, probe, spec
 from ..probe import violation
-from .common import scale_leg, call, grow_while_asking
+from .common import change_delimiter_mid_life, scale_leg, call, grow_while_asking
 
 PROP = "C02"
 LEVEL = "exploration"
@@ -131,6 +131,16 @@ def run_case(ctx, g, rng):
             nontrivial = res.startswith(("synonym", "empty")) or res.endswith("-of-empty") or d in i
             probe.note_key(f"{res}:{icls}:{'colon' if d == ':' else 'd' + str(len(d))}:u{nsyn}:{how == 'rdflib'}", nontrivial)
             S.counters["wl:curies"] += 1
+    if g % 5 == 1 and how != "rdflib":
+        def ask2(cc, q):
+            call(cc.expand, q)
+            call(cc.expand_all, q)
+            call(cc.is_curie, q)
+            i2 = q.find(cc.delimiter)
+            if i2 >= 0:
+                call(cc.expand_pair, q[:i2], q[i2 + len(cc.delimiter):])
+
+        change_delimiter_mid_life(c, [p + d + i for p in prefixes[:4] for i in ids[:3]], rng, ask2)
     # used as an input of derivations whose results are modified; then asked again (against its own records)
     if recs and g % 4 == 2 and d == ":" and how != "rdflib":
         r0 = rng.choice(recs)
